@@ -49,9 +49,10 @@ use vx::{guard, json, Ctx, Level};
 /// `did:ex:ab` has `did:ex:a` as a proper prefix (and another length): a query for an id under one of the two must
 /// never be answered with an entry under the other.
 const DIDS: [&str; 3] = ["did:ex:a", "did:ex:b", "did:ex:ab"];
-/// k1 / k10: one fragment a proper prefix of the other; k1 / K1: equal up to case; did-k: a fragment that begins with
-/// the letters of the DID scheme (as "didcomm" does).
-const FRAGS: [&str; 4] = ["k1", "k10", "K1", "did-k"];
+/// k1 / k10: one fragment a proper prefix of the other; k1 / K1: equal up to case; did-k/1?v: a fragment that begins
+/// with the letters of the DID scheme (as "didcomm" does) and contains the path and query delimiters, which are legal
+/// fragment characters (an id without path and query whose fragment holds them: seed C04-p).
+const FRAGS: [&str; 4] = ["k1", "k10", "K1", "did-k/1?v"];
 /// Fragment code of the fragment that begins with "did".
 const F_DID: u8 = 3;
 /// Id codes 0..9 = did * 3 + fragment (fragments 0..3): a#k1=0 a#k10=1 a#K1=2 b#k1=3 b#k10=4 b#K1=5 ab#k1=6 ab#k10=7
